@@ -103,7 +103,13 @@ fn do_send(p: &Puppet, sig: &str, to: &str, mode: &str, extra: Value) -> Value {
         interpose::push(ev.clone());
         return ev;
     };
-    // a pending bit can only be cleared behind our back (we are the only sender): wait until it is stable
+    // MEASURED accounting (never predicted).  We are the only sender, so a pending bit can only be CLEARED behind our
+    // back, never set.  Each round reads the target's state FIRST and the pending bit SECOND:
+    //   bit clear                      => still clear when we send: a new signal, counted            (exact)
+    //   bit set, target was in `t`     => the target cannot run (the tracer is parked / idle, only it could resume the
+    //                                     task), so the bit is still set when we send: coalesces     (exact)
+    //   bit set, target may be running => it may dequeue the signal before our send: wait; if that does not settle the
+    //                                     send is AMBIGUOUS and the session's counters are not judged for this signal
     let all_stopped = |p: &Puppet| probe::task_states(p.pid).values().all(|s| s == "t" || s == "Z" || s == "X");
     let pending = |p: &Puppet| {
         let (sp, sh) = probe::pending_signals(p.pid, tid);
@@ -115,20 +121,29 @@ fn do_send(p: &Puppet, sig: &str, to: &str, mode: &str, extra: Value) -> Value {
     };
     let stopped = |p: &Puppet| if to == "proc" { all_stopped(p) } else { p.state(tid) == "t" };
     let t0 = Instant::now();
-    let mut was_pending = pending(p);
     let mut ambiguous = false;
-    while was_pending && !stopped(p) {
-        if t0.elapsed() > Duration::from_millis(200) {
+    let coal;
+    let mut before_state;
+    loop {
+        let st = stopped(p); // state BEFORE the bit
+        before_state = if to == "proc" { json!(probe::task_states_json(p.pid)) } else { json!(if st { "t" } else { "running" }) };
+        let pd = pending(p);
+        if !pd {
+            coal = false;
+            break;
+        }
+        if st {
+            coal = true;
+            break;
+        }
+        if t0.elapsed() > Duration::from_millis(300) {
             ambiguous = true;
+            coal = true;
             break;
         }
         std::thread::sleep(Duration::from_micros(200));
-        was_pending = pending(p);
     }
-    // re-check: stable only if the target is stopped or the bit is clear
-    let before_state = if to == "proc" { json!(probe::task_states_json(p.pid)) } else { json!(p.state(tid)) };
     let (sp0, sh0) = probe::pending_signals(p.pid, tid);
-    let coal = was_pending;
     // the event gets its sequence number BEFORE the signal exists
     let n = interpose::push(json!({"ev": "send", "sig": sig, "signo": no, "to": to, "tid": tid, "mode": mode, "at": extra,
         "coal": coal, "ambiguous": ambiguous, "before": {"state": before_state, "sigpnd": sp0, "shdpnd": sh0}}));
